@@ -137,19 +137,19 @@ def classify_call(sig, shape, direction: str) -> str:
         keys = ds[0][1]
         star_names = [NAMES[i] for i, (k, _) in enumerate(sig) if k == "S"]
         kws = [a[1] for a in shape if a[0] == "kw"]
+        npos = sum(1 for a in shape if a[0] == "pos") + sum(a[1] for a in shape if a[0] == "star")
+        posnames = [NAMES[i] for i, (k, _) in enumerate(sig) if k == "K"]
+        nposonly = sum(1 for k, _ in sig if k == "P")
+        filled = posnames[: max(0, npos - nposonly)]
         if any(k in kws for k in keys):
             feat = "**TypedDict-key-duplicates-keyword"
+        elif any(k in filled for k in keys):
+            # checked before the star-formal rule: a key that merely names the *args formal is legal (it lands in **kwargs)
+            feat = "**TypedDict-key-duplicates-positional"
         elif any(k in star_names for k in keys):
             feat = "**TypedDict-key-names-star-formal"
         else:
-            npos = sum(1 for a in shape if a[0] == "pos") + sum(a[1] for a in shape if a[0] == "star")
-            posnames = [NAMES[i] for i, (k, _) in enumerate(sig) if k == "K"]
-            nposonly = sum(1 for k, _ in sig if k == "P")
-            filled = posnames[: max(0, npos - nposonly)]
-            if any(k in filled for k in keys):
-                feat = "**TypedDict-key-duplicates-positional"
-            else:
-                feat = "**TypedDict-other"
+            feat = "**TypedDict-other"
     return "call-binding|%s|%s" % (direction, feat)
 
 
